@@ -35,6 +35,29 @@ def gen(seed, tier):
     pl = P.gen_plan(seed, PROFILE, PROP)
     r = random.Random(seed ^ 0xC10)
     local_method_scenario(pl, r, seed)
+    if seed % 12 == 5 and pl["levels"][0]["engine"] in ("ea", "de", "shade"):
+        # a long run of a converging root with short-lived children and SkipSameSprout: the root's best keeps moving
+        # in the last digits only
+        minr = min(h - l for l, h in pl["box"])
+        pl["levels"][0].update({"engine": "de", "pop_size": 8, "generations": 2, "dither": False, "scaling": 0.5,
+                                "crossover": 0.9, "sample_std_dev": minr * 0.05})
+        for kk in ("ea", "mutation_std", "p_mutation", "k_elites", "p_crossover", "mutation_std_step", "election_group_size",
+                   "memory_size"):
+            pl["levels"][0].pop(kk, None)
+        pl["levels"][0]["lsc"] = {"kind": "dont_stop"}
+        pl["levels"] = pl["levels"][:2]
+        pl["level_stack"] = pl["level_stack"][:2]
+        pl["levels"][1]["lsc"] = {"kind": "metaepoch_limit", "limit": 1}
+        pl["objective"] = {"kind": "sphere", "center": [(l + h) / 2 + 0.123 * (h - l) for l, h in pl["box"]], "scale": 1.0,
+                           "offset": 0.0, "sign": -1.0 if pl["maximize"] else 1.0}
+        pl["sprout"] = {"generator": {"kind": "best"}, "deme_filters": [],
+                        "tree_filters": [{"kind": "level_limit", "limit": 2}, {"kind": "skip_same"}]}
+        pl["gsc"] = {"kind": "metaepoch_limit", "limit": 60}
+        pl["caps"]["metaepochs"] = 100
+        pl["options"].pop("hibernation", None)
+        for st in pl["stacks"]:
+            st["layers"] = [x for x in st["layers"] if x["kind"] != "cutoff"]
+        pl["faults"] = {}
     sp = pl["sprout"]
     if "generator" in sp and seed % 5 == 2:
         sp["deme_filters"].insert((seed // 5) % (len(sp["deme_filters"]) + 1), {"kind": "functional"})
@@ -226,6 +249,15 @@ class C10Monitor(Monitor):
                     if any(gb(k.genome) == gb(s) for s in own):
                         self.violate("skipsame-let-through-equal-seed", {"deme": d.id})
                         break
+                    kg = np.asarray(k.genome, dtype=float)
+                    for s in own:
+                        sg = np.asarray(s, dtype=float)
+                        # numerically equal far inside numpy.isclose's tolerance (a tenth of it): no grey zone
+                        if np.all(np.abs(kg - sg) <= 0.1 * (1e-8 + 1e-5 * np.minimum(np.abs(kg), np.abs(sg)))):
+                            w.probe("c10-skipsame-near-equal-judged")
+                            self.violate("skipsame-let-through-numerically-equal-seed",
+                                         {"deme": d.id, "max_abs_difference": float(np.max(np.abs(kg - sg)))})
+                            break
                 dropped = [x for x in inp if not any(x is k for k in kept)]
                 if not dropped:
                     continue
